@@ -91,11 +91,13 @@ impl SuspenseTaskGuard {
     /// Creates a new suspense task guard. This will suspend the current suspense scope until this
     /// guard is dropped.
     pub fn new() -> Self {
-        let scope = try_use_context::<SuspenseScope>();
-        if let Some(mut scope) = scope {
-            scope.tasks_remaining += 1;
+        // The suspense scope that is found may be in the middle of its disposal, with its counter
+        // already gone (e.g. a cleanup callback re-runs an effect that suspends): `from_scope`
+        // checks for that.
+        match try_use_context::<SuspenseScope>() {
+            Some(scope) => Self::from_scope(scope),
+            None => Self { scope: None },
         }
-        Self { scope }
     }
 
     /// Create a new suspense task guard from a suspense scope.
